@@ -368,6 +368,7 @@ impl Check for C02 {
     fn runs(&self, tier: Tier) -> u64 {
         self.grid_runs(tier)
             + HELPER_RUNS
+            + vmgen::operand_cells() as u64
             + match tier {
                 Tier::Quick => 400_000,
                 Tier::Thorough => 40_000_000,
@@ -380,6 +381,9 @@ impl Check for C02 {
             grid_cell(&self.variants, (run % self.cells()) as usize, g.next_u64())
         } else if run < grid + HELPER_RUNS {
             helper_cell((run - grid) as usize, g)
+        } else if run < grid + HELPER_RUNS + vmgen::operand_cells() as u64 {
+            // the enumerated operand grid (every int / float instruction x every ordered pair of boundary literals)
+            Sc::Flight(vmgen::gen_operand_cell((run - grid - HELPER_RUNS) as usize))
         } else {
             let mut sc = vmgen::gen_scenario(g, Bias::Balanced);
             // bias: faults land right before instructions, early in the program
